@@ -401,6 +401,23 @@ def run_case(case, ctx):
         if not _close(float(c), optf):
             return fail({"what": label + " is not the discrete Frechet distance", "got": float(c),
                          "expected": optf}, "inf")
+    # --- the documented plot option (Agg backend): drawing the cost matrix must not change what is reported
+    if case.get("idx", 0) % 40 == 0:
+        import matplotlib.pyplot as plt
+        pp = PS[(case.get("idx", 0) // 40) % len(PS)]
+        modep = (C.MODE_MATCHING_DTW, C.MODE_MATCHING_FDTW)[(case.get("idx", 0) // 120) % 2]
+        rp = M.call(C.match, ta, tb, modep, _pval(pp), dim, False, True)
+        M.call(plt.close, "all")
+        w, _ = _check_matching("match(plot=True)", rp, D, pp, dp_optimum(D, pp), ctx, n1, n2)
+        if not w:
+            cp = M.call(C.compare, ta, tb, C.MODE_COMPARISON_FRECHET, 1, dim, False, True)
+            M.call(plt.close, "all")
+            if M.is_raised(cp) or not _close(float(cp), optf):
+                w = {"what": "compare(FRECHET, plot=True) is not the discrete Frechet distance", "got": cp,
+                     "expected": optf}
+        cls.add("plot_option")
+        if w:
+            return fail(w, pp)
     # --- call history: the first track of a matching is itself the output of an earlier matching (it already
     # carries the link features), matched now against a track of another size
     prev = M.call(C.match, ta, tb, C.MODE_MATCHING_DTW, 2, dim, False)
@@ -464,7 +481,7 @@ def classify(case, witness):
 
 # floors for the call-history workloads added in session 3 (a run in which they were silently skipped is inconclusive)
 _floors_base = floors
-_FLOORS_EXTRA = {'classes': {'edited_in_place_history': 10000, 'rematch_history': 10000}}
+_FLOORS_EXTRA = {'classes': {'edited_in_place_history': 10000, 'rematch_history': 10000, 'plot_option': 300}}
 
 
 def floors(tier):
